@@ -196,6 +196,21 @@ func (s Schema) DrawRules(t *rapid.T, lo, hi int, cfg RuleCfg) []m.Rule {
 	for i := 0; i < n; i++ {
 		out = append(out, s.DrawRule(t, cfg))
 	}
+	if n > 0 && rapid.IntRange(0, 5).Draw(t, "twin") == 0 {
+		// near-duplicates: two rules that agree in head, body, variable names and operands and
+		// differ only in one operator (one of them is satisfiable, the other is not)
+		i := rapid.IntRange(0, n-1).Draw(t, "twin.of")
+		orig, twin := out[i], out[i]
+		ops := [2]string{"<", ">"}
+		if rapid.Bool().Draw(t, "twin.swap") {
+			ops = [2]string{">", "<"}
+		}
+		mk := func(op string) *m.Expr { return m.Bin(op, m.V(m.Int(1)), m.V(m.Int(2))) }
+		orig.Exprs = append(append([]*m.Expr{}, out[i].Exprs...), mk(ops[0]))
+		twin.Exprs = append(append([]*m.Expr{}, out[i].Exprs...), mk(ops[1]))
+		out[i] = orig
+		out = append(out, twin)
+	}
 	return out
 }
 
